@@ -29,10 +29,10 @@ def decoder_roles(rep, rule, c, subject_text):
     if len(loops) != 1:
         # named wrong shape: subordinates paired with windows by *position* (insertion order vs address order)
         for L in c.t.loops.values():
-            seq = c.norm(L.seq) if L.seq is not None else None
+            seq = c.norm(L.seq) if L.seq is not None else c.norm(L.iter)
             zipped = seq is not None and seq[0] == 'call' and seq[1] == ('name', 'zip') and \
                 any(a == c.parse("self.bus.memory_map.window_patterns()") for a in seq[2])
-            if L.kind == 'enum' and (seq == c.parse("self.bus.memory_map.window_patterns()") or zipped) or L.kind == 'seq' and zipped:
+            if L.kind == 'enum' and (seq == c.parse("self.bus.memory_map.window_patterns()") or zipped) or L.kind in ('seq', 'gen') and zipped:
                 positional = any(x[0] == 'sub' and x[2] == ('idx', L.id) and x[1][0] == 'attr' and x[1][1] == ('name', 'self')
                                  for d in c.t.drivers for x in ir.walk(c.norm(d.target)))
                 if positional or zipped:
@@ -88,6 +88,23 @@ def decoder_roles(rep, rule, c, subject_text):
     return r
 
 
+def _registry_store_precedes_window(c):
+    """In add(): is the registry store executed before add_window() (which may still refuse)?"""
+    import ast as _ast
+    add = c.fi.cls.method("add") if c.fi.cls is not None else None
+    if add is None:
+        return True
+    stores = [n.lineno for n in _ast.walk(add.node) if isinstance(n, _ast.Assign) and
+              any(isinstance(t, _ast.Subscript) and _ast.unparse(t.value).startswith("self.") for t in n.targets)]
+    stores += [n.lineno for n in _ast.walk(add.node) if isinstance(n, _ast.Call) and isinstance(n.func, _ast.Attribute) and
+               n.func.attr == "append" and _ast.unparse(n.func.value).startswith("self.")]
+    calls = [n.lineno for n in _ast.walk(add.node) if isinstance(n, _ast.Call) and isinstance(n.func, _ast.Attribute) and
+             n.func.attr == "add_window"]
+    if not stores or not calls:
+        return True
+    return min(stores) <= max(calls)
+
+
 def acc_of(c, value):
     v = c.norm(value)
     if v[0] == 'acc':
@@ -133,7 +150,16 @@ def check_fanin(rep, rule, c, what, target, term_text, env, L, bus_cond=None, te
         return False
     term, tgen, tdsl, ln = a.terms[0]
     if c.norm(term) != want_term:
-        rep.bad(rule, site, what, f"term is {c.show(term)}; expected {ir.show(want_term)}", line=ln)
+        other = [fr[1] for fr in tgen if fr[0] == 'for' and fr[1] != L.id and fr[1] not in outer]
+        extra = ""
+        if other and other[0] in c.t.loops:
+            extra = (f": the OR runs over {c.show(c.t.loops[other[0]].iter)}, not over the windows of the published map -- an entry of "
+                     "that collection without a window (its add_window() was refused) still contributes")
+        if extra and not _registry_store_precedes_window(c):
+            rep.unk(rule, site, what, f"term is {c.show(term)}; expected {ir.show(want_term)}: the OR runs over another collection and add() "
+                    "registers only after add_window() succeeded; whether both collections always agree is not decided")
+            return False
+        rep.bad(rule, site, what, f"term is {c.show(term)}; expected {ir.show(want_term)}{extra}", line=ln)
         return False
     tg = [(fr[0], c.norm(fr[1]), fr[2]) if fr[0] == 'pyif' else fr for fr in tgen]
     want_tg = [('for', o) for o in outer] + [('for', L.id)] + ([] if term_cond is None else [('pyif', c.parse(term_cond, env), True)])
